@@ -14,6 +14,7 @@ import (
 	"runtime/pprof"
 	"sort"
 	"strings"
+	"sync/atomic"
 	"time"
 
 	"dsim/sim"
@@ -28,6 +29,21 @@ type runLine struct {
 	OpKeys     [][]string      `json:"op_keys,omitempty"`
 	Violations []sim.Violation `json:"violations,omitempty"`
 	Program    *sim.Program    `json:"program,omitempty"`
+}
+
+// A wall-clock watchdog: a single run that takes minutes means the simulator
+// itself is stuck (runs take milliseconds; the step budget bounds the library).
+// That is trouble of the harness: exit 2 with the run index, never a verdict.
+var watchRun, watchStart atomic.Int64
+
+func watchdog(limit time.Duration) {
+	for {
+		time.Sleep(5 * time.Second)
+		if st := watchStart.Load(); st != 0 && time.Since(time.Unix(0, st)) > limit {
+			fmt.Fprintf(os.Stderr, "worker: run %d has been executing for more than %v of wall-clock time: the simulator is stuck (harness trouble, no verdict)\n", watchRun.Load(), limit)
+			os.Exit(2)
+		}
+	}
 }
 
 type summary struct {
@@ -83,6 +99,7 @@ func main() {
 	emitKeys := flag.Bool("emitkeys", false, "with -replay: print the result key of every operation")
 	histCheck := flag.String("histcheck", "", "replay file: execute its program in two fresh processes (epochs in order / reversed) and compare the results of every epoch")
 	flag.Parse()
+	go watchdog(10 * time.Minute)
 	var focusKinds []string
 	if *focus != "" {
 		focusKinds = strings.Split(*focus, ",")
@@ -196,6 +213,8 @@ func main() {
 			}
 		}
 		saveProgress()
+		watchRun.Store(int64(run))
+		watchStart.Store(time.Now().UnixNano())
 		if *dump {
 			enc.Encode(p)
 			continue
